@@ -86,14 +86,125 @@ struct Profile {
     name: &'static str,
     coll: &'static str,
     gen: &'static str,
+    drop: Option<bool>,
+    steps: Option<usize>,
+    sweep: Option<&'static str>,
+    sweep_ops: usize,
+    sweep_k: usize,
+}
+
+const fn prof(name: &'static str, coll: &'static str, gen: &'static str) -> Profile {
+    Profile { name, coll, gen, drop: None, steps: None, sweep: None, sweep_ops: 0, sweep_k: 0 }
 }
 
 const PROFILES: &[Profile] = &[
-    Profile { name: "grow", coll: "map", gen: "grow" },
-    Profile { name: "churn", coll: "map", gen: "churn" },
-    Profile { name: "saturate", coll: "map", gen: "saturate" },
-    Profile { name: "mixed", coll: "map", gen: "mixed" },
+    prof("grow", "map", "grow"),
+    prof("churn", "map", "churn"),
+    prof("saturate", "map", "saturate"),
+    prof("mixed", "map", "mixed"),
+    // fault sweeps
+    Profile { sweep: Some("panic"), sweep_ops: 6, sweep_k: 16, steps: Some(70), ..prof("panic-mixed", "map", "mixed") },
+    Profile { sweep: Some("panic"), sweep_ops: 4, sweep_k: 24, steps: Some(90), drop: Some(true), ..prof("panic-sat-drop", "map", "saturate") },
+    Profile { sweep: Some("panic"), sweep_ops: 4, sweep_k: 24, steps: Some(90), drop: Some(false), ..prof("panic-sat-nodrop", "map", "saturate") },
+    Profile { sweep: Some("alloc"), sweep_ops: 8, sweep_k: 8, steps: Some(60), ..prof("alloc-mixed", "map", "mixed") },
 ];
+
+
+struct Base {
+    id: String,
+    coll: &'static str,
+    drop: bool,
+    lay: &'static str,
+    pre: Vec<String>,           // env + plan lines
+    ops: Vec<String>,           // without leading "op "
+    counters: Vec<[u64; 6]>,    // (hc, ec, cc, pc, ac, dc) before each op, plus one after the last
+    universe: u64,
+}
+
+fn counters_now() -> [u64; 6] {
+    tape::with(|t| [t.hc, t.ec, t.cc, t.pc, t.ac, t.dc])
+}
+
+fn apply_pre(pre: &[String]) {
+    for l in pre {
+        let toks: Vec<&str> = l.split_whitespace().collect();
+        match toks[0] {
+            "env" => tape::with(|t| t.p.apply(&toks[1..])),
+            "plan" => tape::with(|t| {
+                for kv in &toks[1..] {
+                    let (k, h) = kv.split_once('=').unwrap();
+                    t.plan.insert(k.parse().unwrap(), h.parse().unwrap());
+                }
+            }),
+            _ => {}
+        }
+    }
+}
+
+/// Build one base scenario by running the generator against the real collection.
+fn make_base(prof: &Profile, seed: u64, i: usize, real: Option<&mut dyn Write>) -> Base {
+    let s = mix3(seed, i as u64, 0x51);
+    let mut rng = Rng::new(s);
+    let drop = match prof.drop {
+        Some(d) => d,
+        None => rng.chance(2, 3),
+    };
+    let lay = *rng.pick(&["std", "std", "std", "a16", "a64", "big"]);
+    let universe = *rng.pick(&[4u64, 8, 12, 16, 24, 32, 64, 200]);
+    let universe = if prof.gen == "saturate" { 4096 } else { universe };
+    let kind = *rng.pick(gen::PLAN_KINDS);
+    let steps = match prof.gen {
+        "saturate" => prof.steps.unwrap_or(150 + rng.below(250) as usize),
+        _ => prof.steps.unwrap_or(20 + rng.below(200) as usize),
+    };
+    tape::reset();
+    let mut runner = make_runner(prof.coll, drop, lay);
+    let id = format!("{}-{}-{}", prof.name, seed, i);
+    let mut pre = vec![format!("env pred={}", rng.below(1 << 30))];
+    let plan = gen::make_plan(kind, universe, &mut rng);
+    let mut pl = String::from("plan");
+    for (k, h) in &plan {
+        write!(pl, " {}={}", k, h).unwrap();
+    }
+    pre.push(pl);
+    apply_pre(&pre);
+    let mut g = gen::Gen::new(rng.next(), universe, prof.gen);
+    let mut ops = Vec::new();
+    let mut counters = Vec::new();
+    let mut real = real;
+    if let Some(r) = real.as_mut() {
+        writeln!(r, "scn {}", id).unwrap();
+    }
+    for _ in 0..steps {
+        let op = g.next(runner.as_ref());
+        counters.push(counters_now());
+        let toks: Vec<&str> = op.split_whitespace().collect();
+        let obs = runner.op(toks[0], toks[1], &toks[2..]);
+        if let Some(r) = real.as_mut() {
+            writeln!(r, "{}", obs).unwrap();
+        }
+        ops.push(op);
+    }
+    counters.push(counters_now());
+    let complaints = runner.finish();
+    if let Some(r) = real.as_mut() {
+        if complaints.is_empty() {
+            writeln!(r, "end").unwrap();
+        } else {
+            writeln!(r, "end ORACLE {}", complaints.join(" | ")).unwrap();
+        }
+    }
+    Base { id, coll: prof.coll, drop, lay, pre, ops, counters, universe }
+}
+
+fn write_header(ops: &mut dyn Write, b: &Base, id: &str) {
+    tape::reset();
+    let runner = make_runner(b.coll, b.drop, b.lay);
+    writeln!(ops, "{}", header(id, b.coll, b.lay, runner.as_ref())).unwrap();
+    for l in &b.pre {
+        writeln!(ops, "{}", l).unwrap();
+    }
+}
 
 /// Generate `count` scenarios of `profile`, execute them on the real code.
 /// Writes `<out>.ops` (inputs) and `<out>.real` (observations).
@@ -101,52 +212,111 @@ fn generate(profile: &str, seed: u64, count: usize, out: &str) {
     let prof = PROFILES.iter().find(|p| p.name == profile).expect("unknown profile");
     let mut ops = std::io::BufWriter::new(std::fs::File::create(format!("{}.ops", out)).unwrap());
     let mut real = std::io::BufWriter::new(std::fs::File::create(format!("{}.real", out)).unwrap());
+    if prof.sweep.is_some() {
+        return sweep(prof, seed, count, &mut ops, &mut real);
+    }
     for i in 0..count {
-        let s = mix3(seed, i as u64, 0x51);
-        let mut rng = Rng::new(s);
-        let drop = rng.chance(2, 3);
-        let lay = *rng.pick(&["std", "std", "std", "a16", "a64", "big"]);
-        let lay = if !drop && lay == "a32" { "std" } else { lay };
-        let universe = *rng.pick(&[4u64, 8, 12, 16, 24, 32, 64, 200]);
-        let universe = if prof.gen == "saturate" { 4096 } else { universe };
-        let kind = *rng.pick(gen::PLAN_KINDS);
-        let steps = match prof.gen {
-            "saturate" => 150 + rng.below(250) as usize,
-            _ => 20 + rng.below(200) as usize,
-        };
-        tape::reset();
-        let mut runner = make_runner(prof.coll, drop, lay);
-        let id = format!("{}-{}-{}", profile, seed, i);
-        let hdr = header(&id, prof.coll, lay, runner.as_ref());
-        writeln!(ops, "{}", hdr).unwrap();
-        writeln!(real, "scn {}", id).unwrap();
-        let env = format!("env pred={}", rng.below(1 << 30));
-        tape::with(|t| t.p.apply(&env.split_whitespace().skip(1).collect::<Vec<_>>()));
-        writeln!(ops, "{}", env).unwrap();
-        let plan = gen::make_plan(kind, universe, &mut rng);
-        let mut pl = String::from("plan");
-        for (k, h) in &plan {
-            write!(pl, " {}={}", k, h).unwrap();
-            tape::with(|t| {
-                t.plan.insert(*k, *h);
-            });
-        }
-        writeln!(ops, "{}", pl).unwrap();
-        let mut g = gen::Gen::new(rng.next(), universe, prof.gen);
-        for _ in 0..steps {
-            let op = g.next(runner.as_ref());
-            writeln!(ops, "op {}", op).unwrap();
-            let toks: Vec<&str> = op.split_whitespace().collect();
-            let obs = runner.op(toks[0], toks[1], &toks[2..]);
-            writeln!(real, "{}", obs).unwrap();
+        let b = make_base(prof, seed, i, Some(&mut real));
+        write_header(&mut ops, &b, &b.id);
+        for o in &b.ops {
+            writeln!(ops, "op {}", o).unwrap();
         }
         writeln!(ops, "end").unwrap();
-        let complaints = runner.finish();
-        if complaints.is_empty() {
-            writeln!(real, "end").unwrap();
-        } else {
-            writeln!(real, "end ORACLE {}", complaints.join(" | ")).unwrap();
+    }
+}
+
+/// Fault sweeps: for each base scenario and each selected op, for every callback class and every
+/// k below the number of invocations that op made, a scenario in which exactly the k-th invocation
+/// panics (or, for `alloc`, the j-th allocator request is refused), followed by probes.
+fn sweep(prof: &Profile, seed: u64, count: usize, ops: &mut dyn Write, real: &mut dyn Write) {
+    let classes: &[(&str, usize)] = match prof.sweep.unwrap() {
+        "panic" => &[("hpanic", 0), ("epanic", 1), ("cpanic", 2), ("ppanic", 3), ("dpanic", 5)],
+        _ => &[("afail", 4)],
+    };
+    for i in 0..count {
+        let b = make_base(prof, seed, i, None);
+        let mut rng = Rng::new(mix3(seed, i as u64, 0x77));
+        // ops that invoked callbacks; prefer the rare heavy ones (rehash/resize/clone/retain)
+        let mut cand: Vec<usize> = (0..b.ops.len())
+            .filter(|&j| classes.iter().any(|&(_, c)| b.counters[j + 1][c] > b.counters[j][c]))
+            .collect();
+        cand.sort_by_key(|&j| {
+            let d: u64 = classes.iter().map(|&(_, c)| b.counters[j + 1][c] - b.counters[j][c]).sum();
+            std::cmp::Reverse(d)
+        });
+        let heavy: Vec<usize> = cand.iter().copied().take(prof.sweep_ops / 2).collect();
+        let mut chosen = heavy.clone();
+        while chosen.len() < prof.sweep_ops && chosen.len() < cand.len() {
+            let j = *rng.pick(&cand);
+            if !chosen.contains(&j) {
+                chosen.push(j);
+            }
         }
+        let mut n = 0;
+        for &j in &chosen {
+            for &(cls, c) in classes {
+                let d = b.counters[j + 1][c] - b.counters[j][c];
+                let ks: Vec<u64> = if d <= prof.sweep_k as u64 {
+                    (0..d).collect()
+                } else {
+                    // all early ones, then a spread, always the last
+                    let mut v: Vec<u64> = (0..(prof.sweep_k as u64 / 2)).collect();
+                    for _ in 0..(prof.sweep_k / 2) {
+                        v.push(rng.below(d));
+                    }
+                    v.push(d - 1);
+                    v.sort();
+                    v.dedup();
+                    v
+                };
+                for k in ks {
+                    let id = format!("{}-op{}-{}{}", b.id, j, cls, k);
+                    let mut lines: Vec<String> = Vec::new();
+                    for o in &b.ops[..j] {
+                        lines.push(format!("op {}", o));
+                    }
+                    lines.push(format!("env {}={}", cls, b.counters[j][c] + k));
+                    lines.push(format!("op {}", b.ops[j]));
+                    lines.push(format!("env {}=-", cls));
+                    // probes: every key of a small universe, iteration, growth, drop
+                    let tgt = b.ops[j].split_whitespace().next().unwrap().to_string();
+                    lines.push(format!("op {} iter 0 iter", tgt));
+                    for key in 0..std::cmp::min(b.universe, 12) {
+                        lines.push(format!("op {} get {}", tgt, key));
+                    }
+                    lines.push(format!("op {} insert {} 800001 800002 5", tgt, b.universe + 1));
+                    lines.push(format!("op {} iter 2 keys", tgt));
+                    lines.push(format!("op {} reserve 30", tgt));
+                    lines.push(format!("op {} iter 1 values", tgt));
+                    lines.push(format!("op {} clear", tgt));
+                    lines.push("op a nop".into());
+                    lines.push("op b nop".into());
+                    write_header(ops, &b, &id);
+                    writeln!(real, "scn {}", id).unwrap();
+                    let mut runner = make_runner(b.coll, b.drop, b.lay);
+                    apply_pre(&b.pre);
+                    for l in &lines {
+                        writeln!(ops, "{}", l).unwrap();
+                        let toks: Vec<&str> = l.split_whitespace().collect();
+                        if toks[0] == "env" {
+                            tape::with(|t| t.p.apply(&toks[1..]));
+                        } else {
+                            let obs = runner.op(toks[1], toks[2], &toks[3..]);
+                            writeln!(real, "{}", obs).unwrap();
+                        }
+                    }
+                    writeln!(ops, "end").unwrap();
+                    let complaints = runner.finish();
+                    if complaints.is_empty() {
+                        writeln!(real, "end").unwrap();
+                    } else {
+                        writeln!(real, "end ORACLE {}", complaints.join(" | ")).unwrap();
+                    }
+                    n += 1;
+                }
+            }
+        }
+        let _ = n;
     }
 }
 
